@@ -43,7 +43,9 @@ impl<T: ?Sized> Mutex<T> {
             match self.inner.try_lock() {
                 Ok(g) => {
                     k.with_hb(|h| h.on_lock(me, res));
-                    return Ok(MutexGuard { g: Some(g), res });
+                    let guard = MutexGuard { g: Some(g), res };
+                    kernel::post_effect();
+                    return Ok(guard);
                 }
                 Err(TryLockError::Poisoned(p)) => {
                     k.with_hb(|h| h.on_lock(me, res));
@@ -133,6 +135,7 @@ impl<T: ?Sized> Drop for MutexGuard<'_, T> {
                 let res = self.res;
                 k.with_hb(|h| h.on_unlock(me, res));
                 k.event(me, || format!("mutex#{res}.unlock"), &[0x12, res]);
+                kernel::post_effect();
             }
         }
     }
@@ -155,6 +158,7 @@ pub mod atomic {
         if let Some((k, me)) = kernel::current() {
             k.with_hb(|h| h.on_fence(me, o));
         }
+        kernel::post_effect();
     }
     use std::sync::atomic::AtomicU64 as StdAtomicU64;
 
@@ -193,6 +197,7 @@ pub mod atomic {
                     if let Some((k, me)) = kernel::current() {
                         k.with_hb(|h| h.on_load(me, id, o));
                     }
+                    kernel::post_effect();
                     v
                 }
 
@@ -202,6 +207,7 @@ pub mod atomic {
                     if let Some((k, me)) = kernel::current() {
                         k.with_hb(|h| h.on_store(me, id, o));
                     }
+                    kernel::post_effect();
                 }
 
                 pub fn swap(&self, v: $prim, o: Ordering) -> $prim {
@@ -210,6 +216,7 @@ pub mod atomic {
                     if let Some((k, me)) = kernel::current() {
                         k.with_hb(|h| h.on_rmw(me, id, o));
                     }
+                    kernel::post_effect();
                     r
                 }
 
@@ -225,10 +232,22 @@ pub mod atomic {
                             Err(_) => h.on_cas_fail(me, id, f),
                         });
                     }
+                    kernel::post_effect();
                     r
                 }
 
+                /// May fail spuriously (one time in eight, decided from the run's seed and the step
+                /// number): code that uses the weak form without a retry loop is wrong.
                 pub fn compare_exchange_weak(&self, cur: $prim, new: $prim, s: Ordering, f: Ordering) -> Result<$prim, $prim> {
+                    if kernel::coin(8) {
+                        let id = self.pre("cas-weak-spurious", 3, f);
+                        let v = self.inner.load(f);
+                        if let Some((k, me)) = kernel::current() {
+                            k.note_cas_failure(me);
+                            k.with_hb(|h| h.on_cas_fail(me, id, f));
+                        }
+                        return Err(v);
+                    }
                     self.compare_exchange(cur, new, s, f)
                 }
 
@@ -270,6 +289,7 @@ pub mod atomic {
                     if let Some((k, me)) = kernel::current() {
                         k.with_hb(|h| h.on_rmw(me, id, o));
                     }
+                    kernel::post_effect();
                     r
                 }
 
@@ -279,6 +299,7 @@ pub mod atomic {
                     if let Some((k, me)) = kernel::current() {
                         k.with_hb(|h| h.on_rmw(me, id, o));
                     }
+                    kernel::post_effect();
                     r
                 }
 
@@ -288,6 +309,7 @@ pub mod atomic {
                     if let Some((k, me)) = kernel::current() {
                         k.with_hb(|h| h.on_rmw(me, id, o));
                     }
+                    kernel::post_effect();
                     r
                 }
 
@@ -322,6 +344,7 @@ pub mod atomic {
             if let Some((k, me)) = kernel::current() {
                 k.with_hb(|h| h.on_rmw(me, id, o));
             }
+            kernel::post_effect();
             r
         }
 
@@ -331,6 +354,7 @@ pub mod atomic {
             if let Some((k, me)) = kernel::current() {
                 k.with_hb(|h| h.on_rmw(me, id, o));
             }
+            kernel::post_effect();
             r
         }
     }
